@@ -1907,11 +1907,51 @@ def r8(ctx):
     ctx.floor("C12.R8", "formatter handler overrides", n, 2)
 
 
+def r9(ctx):
+    """The third-party XML / notation formatters write dates as isoformat() + 'Z', which is only a valid LLSD date for a
+    naive (UTC) datetime; the XML / notation parsers return naive UTC datetimes.  A binary date handler that returns an
+    aware datetime hands the other two formatters a value they cannot write: either it returns naive UTC as well, or
+    every Hippo formatter overrides DATE."""
+    repo = ctx.repo
+    ctx.rule("C12.R9", "dates parsed from binary can be written by the XML / notation formatters: the binary date handler "
+                       "returns a naive UTC datetime like the other parsers (or every Hippo formatter overrides DATE)")
+    tp = ThirdParty()
+    pm = ParserModel(ctx, tp)
+    origin, h = pm.dispatch[b'd']
+    m = pm.method(h.attr) if isinstance(h, ast.Attribute) else None
+    ctx.require(m is not None, "C12.R9: date handler of the binary parser not found")
+    rets = [n.value for n in ast.walk(m[1]) if isinstance(n, ast.Return) and n.value is not None]
+    ctx.require(bool(rets), "C12.R9: the date handler returns nothing")
+
+    def aware(e) -> bool:
+        if isinstance(e, ast.Call) and isinstance(e.func, ast.Attribute):
+            a = e.func.attr
+            if a == "replace":
+                v = kw(e, "tzinfo")
+                if v is not None:
+                    return not (isinstance(v, ast.Constant) and v.value is None)
+                return aware(e.func.value)
+            if a == "fromtimestamp":
+                v = kw(e, "tz") or (e.args[1] if len(e.args) > 1 else None)
+                return v is not None and not (isinstance(v, ast.Constant) and v.value is None)
+            if a in ("astimezone", "now"):
+                return a == "astimezone" or bool(e.args or e.keywords)
+        return False
+    is_aware = any(aware(r_) for r_ in rets)
+    # formatter side: DATE resolved to a repository method on each Hippo formatter class
+    fmts = [c for c in repo.subclasses(repo.cls("HippoLLSDBaseFormatter", LLSD), strict=True)]
+    overrides = all(repo.lookup_method(c, "DATE") is not None for c in fmts) and bool(fmts)
+    ctx.ob("C12.R9", "binary date handler returns what the XML / notation formatters can write", (not is_aware) or overrides,
+           f"{LLSD}:{getattr(m[1], 'lineno', 0)}" if m[0] == "hippo" else f"{TP_PKG}/serde_binary.py",
+           "the handler returns a tz-aware datetime; the third-party formatters write isoformat() + 'Z' = "
+           "'...+00:00Z', which their own parsers reject: a date read from binary LLSD cannot be re-written as XML / notation")
+
+
 def run(ctx):
     # when re-run as a dependency clause of another property only the requested rules are evaluated (an analysis
     # error of a rule the dependent property does not need must not become its analysis error)
     wanted = getattr(ctx, "_rules", None) if getattr(ctx, "_dep", None) == "C12" else None
-    for name, fn in (("R1", r1), ("R2", r2), ("R3", r3), ("R4", r4), ("R5", r5), ("R6", r6), ("R7", r7), ("R8", r8)):
+    for name, fn in (("R1", r1), ("R2", r2), ("R3", r3), ("R4", r4), ("R5", r5), ("R6", r6), ("R7", r7), ("R8", r8), ("R9", r9)):
         if wanted is None or name in wanted:
             fn(ctx)
     ctx.assume("third-party llsd package sources under /venv/lib/python3.12/site-packages/llsd are parsed, never imported; "
